@@ -240,6 +240,32 @@ pub fn run(ctx: &Ctx) -> i32 {
             raptorq::verif::verif_cache::clear();
         }
     });
+    // history on one thread: Table-2 rows that share a systematic index J (85 values of J are shared by 181
+    // rows), also rows that share S, or W's predecessor row, are encoded one after the other on the SAME thread,
+    // smallest first - anything a thread remembers from an earlier block (memoised tuples, table rows, scratch
+    // buffers) and keys too coarsely shows as a non-RFC symbol in the later block
+    let mut groups: std::collections::BTreeMap<u32, Vec<usize>> = Default::default();
+    for r in TABLE2.iter() {
+        groups.entry(r.1).or_default().push(r.0 as usize);
+    }
+    let mut chains: Vec<Vec<usize>> = groups.into_values().filter(|g| g.len() >= 2).collect();
+    // neighbouring rows as well (K' then the next K', and back)
+    for w in TABLE2.windows(2).step_by(if ctx.args.quick() { 9 } else { 1 }) {
+        chains.push(vec![w[1].0 as usize, w[0].0 as usize, w[1].0 as usize]);
+    }
+    let chained = std::sync::atomic::AtomicU64::new(0);
+    par_for(chains.len(), |i| {
+        for (j, &K) in chains[i].iter().enumerate() {
+            if ctx.too_many_violations() {
+                return;
+            }
+            let mut rng = Rng::derive(ctx.seed(), 45, (i * 8 + j) as u64);
+            run_certified(ctx, &gf, K, 1 + (i + j) % 2, rng.next(), 8, 24, &st);
+            chained.fetch_add(1, Relaxed);
+        }
+        ctx.eval(chains[i].len());
+    });
+    ctx.cov("blocks_encoded_in_same-thread_chains_(rows_sharing_J,_neighbouring_rows)", J::i(chained.load(Relaxed)));
     ctx.sample(|| J::obj(vec![("K", J::i(ks[0])), ("route", J::s("certify + independent solve")), ("esis", J::s("first 30 repair, 200 uniform in [K,2^24), 2^24-3..2^24-1, overflow-sensitive"))]));
     ctx.sample(|| J::obj(vec![("K", J::i(*ks.last().unwrap())), ("route", J::s("certify"))]));
     ctx.cov("K_values", J::i(ks.len()));
@@ -249,7 +275,7 @@ pub fn run(ctx: &Ctx) -> i32 {
     ctx.floor("blocks_solved_fully_independently_(K'<=600)", st.independent.load(Relaxed), 20);
     ctx.floor("repair_symbols_compared", st.repair_cmp.load(Relaxed), 5000);
     ctx.finish(
-        "blocks of K symbols (quick: every K' of Table 2 with K = K', plus K'-1/K'+1 for K' <= 120 and a stratified sample; thorough: every K', K'-1, K'+1) x T in {1,2,3,7,8,64,65} (and 4096..65535 for some K <= 150) x random data; route (b): the encoder's intermediate symbols (hook H4) are certified against the reference model's LDPC, HDPC and LT relations (the encoding matrix is invertible, so they are the RFC's C), then every sampled repair packet (first 30, 200 uniform ESIs, the top 3, overflow-sensitive ESIs) must equal the reference Enc[K',C,Tuple[K',X+K'-K]] and source packet i must be source symbol i; route (a), K' <= 600: the reference model solves the constraint system itself by dense Gauss over GF(256) and encodes, no hook involved. non-trivial = one (K, ESI) repair comparison; distinct by (K, ESI, route)",
+        "blocks of K symbols (quick: every K' of Table 2 with K = K', plus K'-1/K'+1 for K' <= 120 and a stratified sample; thorough: every K', K'-1, K'+1) x T in {1,2,3,7,8,64,65} (and 4096..65535 for some K <= 150) x random data; route (b): the encoder's intermediate symbols (hook H4) are certified against the reference model's LDPC, HDPC and LT relations (the encoding matrix is invertible, so they are the RFC's C), then every sampled repair packet (first 30, 200 uniform ESIs, the top 3, overflow-sensitive ESIs) must equal the reference Enc[K',C,Tuple[K',X+K'-K]] and source packet i must be source symbol i; additionally the rows of Table 2 that share a systematic index J, and (every 9th / every) pair of neighbouring rows, are encoded in chains on one thread (what a thread remembers from an earlier block must not leak into a later one); route (a), K' <= 600: the reference model solves the constraint system itself by dense Gauss over GF(256) and encodes, no hook involved. non-trivial = one (K, ESI) repair comparison; distinct by (K, ESI, route)",
         &["RFC data tables (V0..V3, Table 2, degree thresholds) from the golden copy frozen in /verif", "reference Rand/Deg/Tuple/Enc, LDPC/HDPC construction and GF(256) written from the RFC text in the harness"],
         vec![],
     )
